@@ -99,6 +99,22 @@ CHECKS['C17'] = dict(
     technique='Lean 4 proof (structural induction over the token tree; decide over regenerated escape tables) + byte-exact renderer correspondence',
     ref='DESIGN.md section 5, C17')
 
+CHECKS['C10'] = dict(
+    text='Lean 4 theorems for every fragment list and every limit L (unbounded): the word-wrapping core (model of '
+         'make_words + fragments_to_lines) emits only lines that fit in L or are exactly one unbreakable word; the '
+         'output lines are the input words grouped in order and joined by single spaces (nothing dropped, added or '
+         'reordered; only hard-break markers are consumed); the container budget arithmetic is stated outright, '
+         'including the zero budget at which wrapping silently switched off. The models are tied to the real '
+         'classmethods on generated fragment lists for L in None/0/negative/1..120 and to the budgets the real '
+         'renderer hands to nested blocks. Meaning preservation, round-trip idempotence and non-rebreaking of '
+         'code/HTML/table/ATX blocks are explored on the implementation over generated nested prose for L in 1..120 '
+         '(partial: no theorem yet).',
+    note='Trusted: Lean kernel (axioms propext/Classical.choice/Quot.sound at most); correspondence harness; the '
+         'generated prose avoids words that look like block markers at line start (the recorded finding named by the '
+         'property).',
+    technique='Lean 4 proof (loop invariants of the greedy fill by induction over the word list) + correspondence of the real classmethods + four-clause exploration on nested documents',
+    ref='DESIGN.md section 5, C10')
+
 NOT_YET = {}
 
 
